@@ -10,6 +10,12 @@
 (* second Box) and appends `return x|y`.  The last                            *)
 (* step evaluates the PyMiniData semantics on the program (executed lines,   *)
 (* dynamic slice of the returned value, return value).                       *)
+(* Alphabets: "full" (locals, global, attributes, containers, calls of h/g),  *)
+(* themed ones for exhaustive enumeration (attr, cont, glob; uattr:           *)
+(* attributes with an underscore name, instance and class level; clo: the     *)
+(* closures r (reads y) and w (writes y via nonlocal) defined anywhere among   *)
+(* the assignments of y; hlp: helpers with their own branching) and mixes of   *)
+(* those for simulation (clomix, hlp, umix).                                   *)
 (*  - exhaustive (cfg with INVARIANT Emit): every program of the chosen      *)
 (*    skeletons x alphabet x inputs is emitted once;                         *)
 (*  - `-simulate` (cfg without Emit): random programs over all skeletons; the *)
@@ -54,7 +60,8 @@ CoreAlpha == {Const("x", 1), Copy("y", "x"), Bin("x", "x", "y", "add"), Bin("x",
 (* themed alphabets for exhaustive enumeration of three-statement programs *)
 AttrAlpha == Attrs \cup {Store("p", 0, "a"), Store("p", 1, "y"), Const("y", 1), Bin("x", "a", "b", "add")}
 ContAlpha == Lists \cup Dicts \cup {Const("y", 1), Bin("x", "a", "b", "add")}
-GlobAlpha == Globs \cup {Call("y", "g", "x"), Call("x", "g", "a"), Const("x", 1), Bin("x", "x", "y", "add")}
+GlobAlpha == Globs \cup {Call("y", "g", "x"), Call("x", "g", "a"), Const("x", 1), Bin("x", "x", "y", "add"),
+                         Do("s", "x"), Do("s", "b")}
 UAttrAlpha == UAttrs \cup {Const("y", 1), Bin("x", "a", "b", "add"), Bin("x", "x", "y", "add")}
 CloAlpha == Closures \cup {Const("y", 1), Const("x", 1), Bin("y", "x", "a", "add"), Bin("y", "y", "b", "add"),
                            Bin("x", "x", "y", "add"), Copy("x", "y")}
@@ -63,7 +70,7 @@ CloMix == CloAlpha \cup {Copy("y", "x"), Call("x", "h", "y"), Call("y", "k", "x"
                          Copy("G", "y"), Copy("y", "G"), Call("x", "g", "a")}
 HlpAlpha == BranchyCalls \cup {Call("y", "g", "x"), Call("x", "h", "y"), Const("x", 1), Const("y", 1), Const("x", 0),
                                Bin("x", "x", "y", "add"), Bin("y", "x", "a", "add"), Bin("x", "a", "b", "add"),
-                               Copy("y", "x"), Copy("x", "b"), Copy("G", "x"), Copy("x", "G")}
+                               Copy("y", "x"), Copy("x", "b"), Copy("G", "x"), Copy("x", "G"), Do("s", "x"), Do("s", "a")}
 UMix == UAttrs \cup {Store("o", 0, "x"), Load("x", "o", 0), Const("y", 1), Const("x", 0), Bin("x", "a", "b", "add"),
                      Bin("x", "x", "y", "add"), Bin("y", "x", "a", "add"), Copy("y", "x"), Call("x", "k", "y")}
 AlphaOf(name) == CASE name = "core" -> CoreAlpha [] name = "attr" -> AttrAlpha [] name = "cont" -> ContAlpha
@@ -81,12 +88,12 @@ Cell(o, f, al) == CellNames[IF o = "p" /\ al = "alias" THEN "o" ELSE o][f + 1]
 (* a class-level attribute can always be read through a Box; an inner function needs its def and the captured variable *)
 Reads(s, al) == CASE s.t = "bin" -> {s.y, s.z} [] s.t \in {"copy", "inc"} -> {s.y}
                   [] s.t = "call" -> IF s.fn = "r" THEN {s.y, "r", CapVar} ELSE {s.y}
-                  [] s.t = "do" -> {s.y, s.fn}
+                  [] s.t = "do" -> IF s.fn \in Inner THEN {s.y, s.fn} ELSE {s.y}
                   [] s.t = "store" -> {s.y}
                   [] s.t = "load" -> IF s.o \in {"o", "p"} /\ s.f \in ClassFields THEN {} ELSE {Cell(s.o, s.f, al)}
                   [] OTHER -> {}
 Writes(s, al) == CASE s.t = "store" -> {Cell(s.o, s.f, al)} [] s.t = "defr" -> {"r"} [] s.t = "defw" -> {"w"}
-                   [] s.t = "do" -> {CapVar} [] OTHER -> {s.x}
+                   [] s.t = "do" -> (IF s.fn = "w" THEN {CapVar} ELSE {"G"}) [] OTHER -> {s.x}
 (* statements that need not read what the body wrote before (chain mode) *)
 Unchained(s) == s.t \in {"call", "do", "defr", "defw"} \/ (s.t = "load" /\ s.o \in {"o", "p"} /\ s.f \in ClassFields)
 Mentions(s) == CASE s.t \in {"store", "load"} -> {s.o} [] OTHER -> {}
